@@ -285,7 +285,73 @@ func rewriteQuant(e ast.Expr) ast.Expr {
 	return rw(e)
 }
 
+// convImplies rewrites the infix operator  A ==> B  (lowest precedence, right
+// associative) into implies(A, B), recursively inside brackets and argument lists.
+func convImplies(s string) string {
+	// split at top-level commas
+	depth := 0
+	var parts []string
+	last := 0
+	for i := 0; i < len(s); i++ {
+		switch s[i] {
+		case '(', '[', '{':
+			depth++
+		case ')', ']', '}':
+			depth--
+		case ',':
+			if depth == 0 {
+				parts = append(parts, s[last:i])
+				last = i + 1
+			}
+		}
+	}
+	parts = append(parts, s[last:])
+	if len(parts) > 1 {
+		for i := range parts {
+			parts[i] = convImplies(parts[i])
+		}
+		return strings.Join(parts, ",")
+	}
+	depth = 0
+	for i := 0; i+2 < len(s); i++ {
+		switch s[i] {
+		case '(', '[', '{':
+			depth++
+		case ')', ']', '}':
+			depth--
+		}
+		if depth == 0 && s[i] == '=' && s[i+1] == '=' && s[i+2] == '>' {
+			return "implies(" + convImplies(s[:i]) + ", " + convImplies(s[i+3:]) + ")"
+		}
+	}
+	// recurse into bracket groups
+	var b strings.Builder
+	for i := 0; i < len(s); i++ {
+		c := s[i]
+		if c == '(' || c == '[' || c == '{' {
+			d := 1
+			j := i + 1
+			for ; j < len(s) && d > 0; j++ {
+				switch s[j] {
+				case '(', '[', '{':
+					d++
+				case ')', ']', '}':
+					d--
+				}
+			}
+			b.WriteByte(c)
+			b.WriteString(convImplies(s[i+1 : j-1]))
+			b.WriteByte(s[j-1])
+			i = j - 1
+			continue
+		}
+		b.WriteByte(c)
+	}
+	return b.String()
+}
+
 func parseSpecExpr(text string) (string, ast.Expr, error) {
+	text = convImplies(text)
 	e, err := parser.ParseExpr(text)
 	if err != nil {
 		return "", nil, err
@@ -373,6 +439,61 @@ func loopsOf(body *ast.BlockStmt) map[string]ast.Stmt {
 	}
 	walk(body, "")
 	return out
+}
+
+// assignStmtOf finds the occ-th statement (source order) that assigns or declares name.
+func assignStmtOf(body *ast.BlockStmt, name string, occ int) ast.Stmt {
+	var found ast.Stmt
+	n := 0
+	ast.Inspect(body, func(m ast.Node) bool {
+		if found != nil {
+			return false
+		}
+		hit := false
+		switch x := m.(type) {
+		case *ast.FuncLit:
+			return false
+		case *ast.AssignStmt:
+			for _, l := range x.Lhs {
+				if id, ok := l.(*ast.Ident); ok && id.Name == name {
+					hit = true
+				}
+			}
+			if hit {
+				if n == occ {
+					found = x
+				}
+				n++
+			}
+		case *ast.DeclStmt:
+			if gd, ok := x.Decl.(*ast.GenDecl); ok {
+				for _, sp := range gd.Specs {
+					if vs, ok := sp.(*ast.ValueSpec); ok {
+						for _, id := range vs.Names {
+							if id.Name == name {
+								hit = true
+							}
+						}
+					}
+				}
+			}
+			if hit {
+				if n == occ {
+					found = x
+				}
+				n++
+			}
+		case *ast.IncDecStmt:
+			if id, ok := x.X.(*ast.Ident); ok && id.Name == name {
+				if n == occ {
+					found = x
+				}
+				n++
+			}
+		}
+		return true
+	})
+	return found
 }
 
 func fieldListString(fset *token.FileSet, fl *ast.FieldList, unnamedPrefix string, counter *int) []string {
@@ -482,7 +603,7 @@ func (prog *Program) genSynth(p0 *packages.Package) (string, error) {
 			return "", fmt.Errorf("contracts:%d: no function %q in package", fc.Line, fc.Name)
 		}
 		loops := loopsOf(fd.Body)
-		emit := func(cl *Clause, withResults bool, loopPath string, retType string) error {
+		emit := func(cl *Clause, withResults bool, loopPath string, retType string, at ...token.Pos) error {
 			txt, e, err := parseSpecExpr(cl.Text)
 			if err != nil {
 				return fmt.Errorf("contracts:%d: %s %s: %v", cl.Line, fc.Name, cl.Kind, err)
@@ -491,6 +612,20 @@ func (prog *Program) genSynth(p0 *packages.Package) (string, error) {
 			have := map[string]bool{}
 			for _, p := range params {
 				have[strings.Fields(p)[0]] = true
+			}
+			if len(at) > 0 {
+				pos := at[0]
+				scope := p0.Types.Scope().Innermost(pos)
+				for _, name := range freeIdents(e) {
+					if have[name] || scope == nil {
+						continue
+					}
+					_, obj := scope.LookupParent(name, pos)
+					if v, ok := obj.(*types.Var); ok && v.Parent() != p0.Types.Scope() && v.Parent() != types.Universe {
+						params = append(params, name+" "+types.TypeString(v.Type(), qual))
+						have[name] = true
+					}
+				}
 			}
 			if loopPath != "" {
 				lp := loops[loopPath]
@@ -541,6 +676,15 @@ func (prog *Program) genSynth(p0 *packages.Package) (string, error) {
 		}
 		for _, cl := range fc.Ensures {
 			if err := emit(cl, true, "", "bool"); err != nil {
+				return "", err
+			}
+		}
+		for _, ac := range fc.Asserts {
+			stmt := assignStmtOf(fd.Body, ac.Var, ac.Occ)
+			if stmt == nil {
+				return "", fmt.Errorf("contracts:%d: %s: no assignment #%d to %s", ac.Cl.Line, fc.Name, ac.Occ, ac.Var)
+			}
+			if err := emit(ac.Cl, false, "", "bool", stmt.End()); err != nil {
 				return "", err
 			}
 		}
